@@ -19,6 +19,8 @@ CONSTANTS
     MaxPanics = 0
     FixF2 = FALSE
     FixF3 = TRUE
+    InitEnc = "proto"
+    MaxMigrations = 0
 VIEW view
 INVARIANTS
     StateIsFullReplay
